@@ -131,6 +131,9 @@ pub fn run(v: &serde_json::Value, rep: &mut Report) -> Result<(), String> {
                 let txs = r.transactions.as_vec().clone();
                 let exec: u128 = txs.iter().map(|t| t.quantity as u128).sum();
                 if exec + r.remaining_quantity as u128 != qty as u128 { rep.violation("C02", "match_order.executed_plus_remaining", format!("step={step} requested={qty} executed={exec} remaining={}", r.remaining_quantity)); }
+                if r.executed_quantity() as u128 != exec || r.executed_quantity() as u128 + r.remaining_quantity as u128 != qty as u128 { rep.violation("C02", "MatchResult.executed_quantity.sum_of_the_transactions", format!("step={step} executed_quantity()={} but the transactions sum to {exec} (requested {qty}, remaining {})", r.executed_quantity(), r.remaining_quantity)); }
+                if txs.iter().any(|t| t.maker_side() == t.taker_side) { rep.violation("C02", "Transaction.maker_side.opposite_of_taker_side", format!("step={step}")); }
+                if r.transactions.len() != txs.len() || r.transactions.is_empty() != txs.is_empty() { rep.violation("C02", "TransactionList.len.exact", format!("step={step} len()={} is_empty()={} for {} transactions", r.transactions.len(), r.transactions.is_empty(), txs.len())); }
                 if r.is_complete != (r.remaining_quantity == 0) { rep.violation("C02", "match_order.complete_iff_nothing_remains", format!("step={step} is_complete={} remaining={}", r.is_complete, r.remaining_quantity)); }
                 // C04 bookkeeping for this call
                 let mut cur_vis: HashMap<OrderId, u64> = pre.iter().map(|(k, o)| (*k, o.visible_quantity())).collect();
